@@ -260,7 +260,10 @@ def main(mod, argv):
     reasons = []
     floor = plan.get('floor', {})
     for k, need in floor.items():
-        have = len(total.keys) if k == 'distinct_nontrivial' else total.counters.get(k, 0)
+        if k == 'flag_sets_seen':
+            have = len([x for x in total.counters if x.startswith('flagset_')])
+        else:
+            have = len(total.keys) if k == 'distinct_nontrivial' else total.counters.get(k, 0)
         if have < need:
             reasons.append('counter %s=%d below floor %d' % (k, have, need))
     if len(shard_fail) > max(1, nshards // 10):
